@@ -114,8 +114,7 @@ func VerifC05Docs() {
 
 // VerifC05Flat: the diff is empty exactly when the documents are equal.
 func VerifC05Flat() {
-	k := vChoice(optCount)
-	vAssume(k != optSetKeys)
+	k := vOptChoice(0x77)
 	opts := vOptions(k)
 	n := vParam("N", 2)
 	a := vNumArray(n)
